@@ -227,6 +227,15 @@ def execute(h):
     def check_type(step, tn):
         mt = model.types[tn]
         cls = env.types[tn]
+        # a caller may do what it likes with what the queries hand out
+        for handed_out in (cls.units(), getattr(cls, 'definition', None)):
+            try:
+                if isinstance(handed_out, list):
+                    del handed_out[:]
+                elif isinstance(handed_out, dict):
+                    handed_out.clear()
+            except Exception:       # noqa
+                pass
         got = [u.symbol for u in cls.units()]
         if sorted(got) != sorted(mt['units']) or len(got) != len(set(got)):
             violate('directory', 'units_listing', step, type=tn,
